@@ -1,4 +1,5 @@
 import PilotaModel.Lemmas.Fuel
+import PilotaModel.Lemmas.OpsRun
 /-
   C04 — the byte count computed before encoding equals the bytes encoding writes.
 -/
